@@ -16,14 +16,16 @@ func register(tag string, weight int, f func(g *gen, d int)) {
 
 func (g *gen) template(d int) {
 	var w []int
+	total := 0
 	for _, t := range templates {
 		if g.on(t.tag) {
 			w = append(w, t.weight)
+			total += t.weight
 		} else {
 			w = append(w, 0)
 		}
 	}
-	if len(w) == 0 {
+	if total == 0 {
 		g.assignStmt()
 		return
 	}
@@ -31,5 +33,3 @@ func (g *gen) template(d int) {
 	g.feat(t.tag)
 	t.f(g, d)
 }
-
-func (g *gen) gotoGraph() {}
